@@ -104,7 +104,8 @@ class ProgramGen(object):
                  'docstr_in_def', 'deepnest', 'unicode', 'starunpack', 'yieldgen', 'condexpr', 'withas', 'stdoutwrite',
                  'elifchain', 'commentbody', 'parenwith', 'tripledq', 'mlstr_trailing', 'raises_expected',
                  'raises_compound', 'markercomment', 'bscomment', 'padded', 'brblank', 'mlstr_wsline',
-                 'mlstr_hashclose', 'usepriv', 'sep_out', 'sep_literal']
+                 'mlstr_hashclose', 'usepriv', 'sep_out', 'sep_literal',
+                 'deco_comment', 'else_comment', 'ml_semi']
 
     def __init__(self, rng, kinds=None, allow_async=True):
         self.rng = rng
@@ -323,6 +324,17 @@ class ProgramGen(object):
             sep = r.choice(['\x0c', '\x85', '\u2028', '\x1c'])
             self.defined_vars.append('s%d' % i)
             return S(["s%d = 'a%sb'; quiet(%d + len(s%d))" % (i, sep, i, i)], k, i, is_expr=True)
+        if k == 'deco_comment':
+            # a comment line between a decorator and its def (finding F38)
+            self.defined_funcs.append('f%d' % i)
+            return S(['@deco(%d)' % i, '# the decorated function follows', 'def f%d(a):' % i, '    return a'], k, i)
+        if k == 'else_comment':
+            # a comment at the column of the if, in front of its else
+            return S(['if %d < 0:' % i, '    emit(-%d)' % i, '# otherwise', 'else:', '    emit(%d)' % i], k, i)
+        if k == 'ml_semi':
+            # a second statement behind a semicolon on the closing line of a multi-line statement (finding F39)
+            self.defined_vars.append('v%d' % i)
+            return S(['v%d = [%d,' % (i, i), '    quiet(%d)]; emit(%d)' % (i, i)], k, i, is_expr=True)
         if k == 'usepriv':
             # names with a leading underscore that the doctest does not bind itself
             return S(['_q_zz(_K_ZZ + %d)' % i], k, i, is_expr=True)
